@@ -13,7 +13,9 @@ import (
 func init() { register("C15", checkC15) }
 
 func indexPolicy() pw.Policy {
-	return pw.Policy{Inline: func(fn *types.Func, d int) bool { return sameRecvNamed(fn, "InvalidationIndex") }, MaxDepth: 4,
+	return pw.Policy{Inline: func(fn *types.Func, d int) bool {
+		return sameRecvNamed(fn, "InvalidationIndex") || inlineUnexported(fn, d)
+	}, MaxDepth: 4,
 		Pure: func(fn *types.Func) bool { return pw.FuncName(fn) == "errors.Is" }}
 }
 
